@@ -82,7 +82,7 @@ func judgeTiling(in []byte, blocks []*cm.RootBlock, entry string) string {
 	return ""
 }
 
-func judgeC01(in []byte, _ string, _ int) string {
+func judgeC01(in []byte, param string, _ int) string {
 	buf := append([]byte(nil), in...)
 	blocks, _ := cm.Parse(buf)
 	if !bytes.Equal(buf, in) {
@@ -102,7 +102,13 @@ func judgeC01(in []byte, _ string, _ int) string {
 		}
 	}
 	// streaming entry point; earlier Sources must stay intact after later calls
-	p := cm.NewBlockParser(bytes.NewReader(in))
+	var rd io.Reader = bytes.NewReader(in)
+	if param != "" {
+		// a read schedule (no fault): the streaming entry point must tile the same input under any chunking
+		sr, _ := parseSchedule(in, param)
+		rd = sr
+	}
+	p := cm.NewBlockParser(rd)
 	var sblocks []*cm.RootBlock
 	var copies [][]byte
 	for {
